@@ -22,8 +22,23 @@ def tlc_rows(spec, rows_file, wd, tag, env_extra=None, timeout=3000):
         raise Infra('TLC failed on %s:\n%s' % (rows_file, r.stdout[-2500:]))
     return r.stdout
 
+def tlaps_quorum(wd):
+    """The design half of C06 for EVERY validator count: spec/QuorumProof.tla is checked by the TLA+ proof system."""
+    sd = os.path.join(wd, 'tlaps'); os.makedirs(sd, exist_ok=True)
+    shutil.copy(os.path.join(vlib.VERIF, 'spec', 'QuorumProof.tla'), sd)
+    try:
+        r = vlib.sh(['tlapm', '--threads', '4', 'QuorumProof.tla'], cwd=sd, timeout=300)
+    except (subprocess.TimeoutExpired, FileNotFoundError) as e:
+        return {'module': 'spec/QuorumProof.tla', 'proved': False, 'note': 'tlapm not run: %s' % e}
+    m = re.search(r'All (\d+) obligations? proved', r.stdout)
+    shutil.rmtree(sd, ignore_errors=True)
+    return {'module': 'spec/QuorumProof.tla', 'proved': bool(m), 'obligations': int(m.group(1)) if m else 0,
+            'theorems': ['FloorBounds', 'QuorumFacts', 'PrimaryInRange'], 'domain': 'every n in Nat \\ {0} (unbounded)',
+            'note': '' if m else r.stdout[-600:]}
+
 def c06(tier, seed, wd, ev):
     vh = vlib.build_harness(wd)
+    proof = tlaps_quorum(wd)
     rd = os.path.join(wd, 'rows'); os.makedirs(rd)
     jobs = []
     if tier == 'quick':
@@ -64,6 +79,7 @@ def c06(tier, seed, wd, ev):
                 '(each is compared with the TLA+ definition)' % ('every N in 1..65535' if tier != 'quick' else 'every N in 1..2000 and every 97th up to 65535'),
         'samples': [json.loads(l) for l in open(jobs[0][0]).readlines()[:3]],
         'exhaustive': tier != 'quick', 'rotation_rows': nrot, 'bad_rows': nbad,
+        'design_proof_tlaps': proof,
         'design_theorems': 'ASSUME ThmArith (N in 1..%s), ThmRotation (N in 1..64) checked by TLC in spec/Quorum.tla' % maxn,
         'trace_lines_with_PrimaryOK': lines, 'checker_cmd': 'tlc Quorum.tla (ASSUME over rows)',
     }
